@@ -1202,6 +1202,10 @@ class ContractSet:
             except Unsupported:
                 return None
             k = getattr(node, "_pyvc_ord", None)
+            if k is None:
+                # a loop that is not a statement of the function (the loop a `next(genexpr, default)` abbreviates): it may take a
+                # loop contract of the verified function that none of the function's own loops takes (by match key)
+                return self.helper_loop_contract(I, fr, node)
         fn_ = getattr(node, "_pyvc_fn", None)
         if fn_ is not None:
             self.ensure_roles(c, fn_)
